@@ -254,17 +254,19 @@ def run(ctx):
     quick = ctx.tier == "quick"
     verdict = core.Verdict(ctx)
     cov = new_cov()
-    only = os.environ.get("C17_ONLY", "")          # development aid: "conn" or "reactors"
+    only = os.environ.get("C17_ONLY", "")          # development aid: "conn", "reactors", "alphabet" or "seq"
     from props import c17_reactors
     ctx.spec_copy()
     # the two halves are independent (TLC-bound / Go-bound): run them side by side
     from concurrent.futures import ThreadPoolExecutor
-    with ThreadPoolExecutor(max_workers=2) as ex:
+    with ThreadPoolExecutor(max_workers=3) as ex:
         futs = []
-        if only != "reactors":
+        if only not in ("reactors", "seq", "alphabet"):
             futs.append(ex.submit(conn_half, ctx, verdict, cov, quick))
-        if only != "conn":
+        if only not in ("conn", "seq"):
             futs.append(ex.submit(c17_reactors.hostile_half, ctx, verdict, cov, quick))
+        if only not in ("conn", "alphabet"):
+            futs.append(ex.submit(c17_reactors.sequence_half, ctx, verdict, cov, quick))
         for f in futs:
             f.result()
     cov["rule"] = ("connection half: every state of the act-augmented TMMConnSys graphs (deliver: 2 channels, payload 2, "
@@ -301,7 +303,7 @@ def replay(ctx, path):
     with open(path) as f:
         rep = json.load(f)
     sig = rep.get("signature", {})
-    if sig.get("half") == "reactor":
+    if sig.get("half") in ("reactor", "reactor-seq"):
         from props import c17_reactors
         return c17_reactors.replay(ctx, rep)
     prefix = rep["replay"]["prefix"]
